@@ -15,6 +15,7 @@
 from __future__ import annotations
 
 import itertools
+import traceback
 from fractions import Fraction
 
 from hypothesis import strategies as st
@@ -73,7 +74,12 @@ def _guard(clause: str, failures: list, func, *args, **kwargs):
     try:
         return True, func(*args, **kwargs)
     except Exception as err:  # pylint: disable=broad-except
-        failures.append((clause, {"exception": type(err).__name__, "message": str(err)[:200]}))
+        where = ""
+        for frame in reversed(traceback.extract_tb(err.__traceback__)):
+            if "/antismash/" in frame.filename:
+                where = f"{frame.filename.split('/antismash/', 1)[1]}:{frame.name}"
+                break
+        failures.append((clause, {"exception": type(err).__name__, "message": str(err)[:200], "where": where}))
         return False, None
 
 
@@ -400,7 +406,7 @@ def _refine_failures(spec: dict) -> tuple:
         ok, other = _guard("refine_total", failures, _run_refine, permuted, lengths, neighbour, False)
         if ok and not _same_result(other, base):
             failures.append(("refine_order_public", {"mode": mode, "order": order, "first": base, "permuted": other,
-                                                     "equal_start_pairs": _equal_start_pairs(by_cds)}))
+                                                     "equal_start_pairs": _equal_start_pairs(by_cds, base, other)}))
             break
     # ... and every order in which the set could hand equal-start hits to the start-only sort
     ordered_results = []
@@ -421,7 +427,7 @@ def _refine_failures(spec: dict) -> tuple:
             if not _same_result(other, first):
                 failures.append(("refine_order_ties", {"mode": mode, "orders": [first_order, order], "first": first,
                                                        "other": other,
-                                                       "equal_start_pairs": _equal_start_pairs(by_cds)}))
+                                                       "equal_start_pairs": _equal_start_pairs(by_cds, first, other)}))
                 break
         if not _same_result(base, first) and not tie_groups_exist(tie_groups):
             failures.append(("refine_order_public", {"mode": mode, "order": "set versus list", "first": base,
@@ -452,12 +458,15 @@ def _has_start_tie(hits: list) -> bool:
     return len(set(starts)) != len(starts)
 
 
-def _equal_start_pairs(by_cds: dict) -> list:
+def _equal_start_pairs(by_cds: dict, one: dict, two: dict) -> list:
+    """ pairs of hits with the same start on the proteins whose results differ """
     pairs = []
-    for hits in by_cds.values():
-        for one, two in itertools.combinations(hits, 2):
-            if one[1] == two[1]:
-                pairs.append([list(one), list(two)])
+    for name, hits in by_cds.items():
+        if sorted(one.get(name, [])) == sorted(two.get(name, [])):
+            continue
+        for hit_a, hit_b in itertools.combinations(hits, 2):
+            if hit_a[1] == hit_b[1]:
+                pairs.append([list(hit_a), list(hit_b)])
     return pairs[:6]
 
 
@@ -804,6 +813,14 @@ def _filter_failures(spec: dict) -> tuple:
             comp = [c for c in _filter_components(hits) if hits.index(hit) in c][0]
             rivals1.append(any(hits[i] != hit and hits[i][4] == hit[4] for i in comp))
         facts["stage1_changed_hits_all_tied_in_their_group"] = all(rivals1)
+        chains1 = []
+        for hit in changed1:
+            hits = by_cds[hit[0]]
+            comp = [c for c in _filter_components(hits) if hits.index(hit) in c][0]
+            clique = all(min(hits[i][3], hits[j][3]) - max(hits[i][2], hits[j][2]) > 20
+                         for i, j in itertools.combinations(comp, 2))
+            chains1.append(len(comp) >= 5 and not clique)
+        facts["stage1_changed_hits_all_in_chained_group_of_5"] = all(chains1)
         facts["stage2_changed_hits_all_tied_in_their_profile"] = all(
             any(o != hit and o[0] == hit[0] and o[1] == hit[1] and o[4] == hit[4] for o in keys)
             for hit in changed2)
@@ -942,6 +959,7 @@ def check_docking(spec: dict) -> dict:
 SUBCHECKS = {
     "refine": check_refine,
     "refine_enum": check_refine,
+    "refine_enum_sampled": check_refine,
     "hmmer": check_hmmer,
     "hmmer_enum": check_hmmer,
     "filter": check_filter,
@@ -957,7 +975,7 @@ def _sig(func):
 
 
 def _is_refine(sub: str) -> bool:
-    return sub in ("refine", "refine_enum")
+    return sub in ("refine", "refine_enum", "refine_enum_sampled")
 
 
 @_sig
@@ -1022,13 +1040,45 @@ def _hmmer_short_first_hit_repeated(sub, spec, clause, detail) -> bool:
     return False
 
 
+def _spec_has_tied_best_group(spec: dict) -> bool:
+    by_cds: dict = {}
+    for raw in spec["hits"]:
+        by_cds.setdefault(raw[0], []).append((f"cds{raw[0]}", raw[1], int(raw[2]), int(raw[3]), float(raw[4])))
+    for hits in by_cds.values():
+        for comp in _filter_components(hits):
+            scores = [hits[i][4] for i in comp]
+            if len(comp) > 1 and scores.count(max(scores)) > 1:
+                return True
+    return False
+
+
 @_sig
 def _filter_equal_scores_in_group(sub, spec, clause, detail) -> bool:
-    """ filter_results: the survivors of the competition differ between two orders / memory placings AND
-        every hit that changed has an equal-scoring rival in its overlapping group """
+    """ filter_results decides equal best scores inside an overlapping group by set order: the survivors
+        differ between two orders / memory placings and every hit that changed has an equal-scoring rival in
+        its group; or two overlapping 'groups' elect different winners, every tied best hit is removed and the
+        function stops on its own `assert results_by_id[cds]` """
+    if sub != "filter":
+        return False
+    if clause in ("filter_order", "filter_order_addresses"):
+        return (detail.get("stage1_differs") is True
+                and detail.get("stage1_changed_hits_all_tied_in_their_group") is True)
+    if clause == "filter_best_of_group_lost":
+        return detail.get("tied_best") is True
+    if clause == "filter_total":
+        return (detail.get("exception") == "AssertionError" and detail.get("where", "").endswith("filter_results")
+                and _spec_has_tied_best_group(spec))
+    return False
+
+
+@_sig
+def _filter_groups_not_merged(sub, spec, clause, detail) -> bool:
+    """ filter_results adds a pair to every group it touches but never joins two groups that a pair connects:
+        the survivors differ between two input orders AND every hit that changed sits in an overlapping group of
+        at least five hits that is a chain (some two of its members do not overlap each other directly) """
     return (sub == "filter" and clause in ("filter_order", "filter_order_addresses")
             and detail.get("stage1_differs") is True
-            and detail.get("stage1_changed_hits_all_tied_in_their_group") is True)
+            and detail.get("stage1_changed_hits_all_in_chained_group_of_5") is True)
 
 
 @_sig
@@ -1230,8 +1280,10 @@ def filter_specs(draw) -> dict:
             start = draw(st.integers(0, 300))
         score = draw(st.one_of(st.sampled_from([10.0, 20.0, 30.0]), st.integers(1, 300).map(lambda v: v / 10)))
         hits.append([cds, profile, int(start), int(start + size), float(score)])
-    addresses = draw(st.permutations(list(range(count))))
-    others = [draw(st.permutations(list(range(count)))) for _ in range(2)] + [list(reversed(addresses))]
+    # hashes of the HSP objects: distinct "addresses", often equal modulo the size of a small set's table
+    placing = st.lists(st.integers(0, 63), min_size=count, max_size=count, unique=True)
+    addresses = draw(placing)
+    others = [draw(placing), draw(st.permutations(addresses)), list(reversed(addresses))]
     return {"groups": groups, "hits": hits, "addresses": list(addresses), "other_addresses": [list(o) for o in others]}
 
 
@@ -1256,15 +1308,26 @@ def docking_specs(draw) -> dict:
 
 def run(ctx) -> None:
     shards = ctx.pick(8, 16)
-    rand_shards = ctx.pick(4, 16)
+    rand_shards = ctx.pick(8, 16)
+    # complete for <= 2 (quick) / <= 3 (thorough) hits; beyond that every k-th set, the offset moves with the seed
     ctx.enum("refine_enum", enum_refine(ctx.pick(2, 3)), shards=shards)
     if ctx.thorough:
-        ctx.enum("refine_enum", enum_refine_sampled(4, 37, ctx.seed % 37), shards=shards, exhaustive=False)
+        ctx.enum("refine_enum_sampled", enum_refine_sampled(4, 23, ctx.seed % 23), shards=shards, exhaustive=False)
+    else:
+        ctx.enum("refine_enum_sampled", enum_refine_sampled(3, 11, ctx.seed % 11), shards=shards, exhaustive=False)
     ctx.enum("hmmer_enum", enum_hmmer(ctx.pick(2, 3)), shards=shards)
-    ctx.hyp("refine", refine_specs(), max_examples=ctx.pick(3000, 60000), shards=rand_shards)
-    ctx.hyp("hmmer", hmmer_specs(), max_examples=ctx.pick(1500, 30000), shards=rand_shards)
-    ctx.hyp("filter", filter_specs(), max_examples=ctx.pick(1500, 30000), shards=rand_shards)
-    ctx.hyp("docking", docking_specs(), max_examples=ctx.pick(400, 8000), shards=rand_shards)
-    ctx.extra["bounds"] = {"refine_enum": f"all sets of <= {ctx.pick(2, 3)} hits over grid {GRID}, 2 profiles, "
-                                          "2 scores, both modes" + ("; every 37th set of 4" if ctx.thorough else ""),
-                           "hmmer_enum": f"all sets of <= {ctx.pick(2, 3)} hits, limit 3"}
+    ctx.hyp("refine", refine_specs(), max_examples=ctx.pick(6000, 160000), shards=rand_shards)
+    ctx.hyp("hmmer", hmmer_specs(), max_examples=ctx.pick(2400, 48000), shards=rand_shards)
+    ctx.hyp("filter", filter_specs(), max_examples=ctx.pick(2400, 64000), shards=rand_shards)
+    ctx.hyp("docking", docking_specs(), max_examples=ctx.pick(800, 12000), shards=rand_shards)
+    ctx.extra["bounds"] = {
+        "refine_enum": f"all sets of <= {ctx.pick(2, 3)} distinct hits over grid {GRID}, profiles pA (10) and pB (20), "
+                       "scores 10/20, both modes, all input orders",
+        "refine_enum_sampled": ("every 23rd set of 4 hits" if ctx.thorough else "every 11th set of 3 hits")
+                               + " of the same grid (offset = seed), modes alternating",
+        "hmmer_enum": f"all sets of <= {ctx.pick(2, 3)} hits over grid [0, 3, 5, 6, 8, 12], 2 profiles, 2 scores, "
+                      "overlap_limit 3, all input orders",
+        "orders": "all n! input orders for n <= 4 (refine, filter) / n <= 5 (hmmer); above that reversal, rotations, "
+                  "two interleavings and up to 48 rearrangements inside equal-start groups; refine additionally every "
+                  "arrangement (<= 200) of the equal-start groups through the order-preserving gather",
+    }
